@@ -309,6 +309,8 @@ def extra_pad_values(seed):
     hs.append([['plain', 'ab'], ['apply', R['R'], 0, 2, True], ['center', 4, '*', True, True], ['slice', 1, 3]])
     # texts that start with a sign or are digits only (a sign-aware or number-aware pad would treat them differently)
     hs += [[['ctor', '-5', R['R']]], [['rainbow', '+a-']], [['plain', '-']], [['rainbow', '007']]]
+    # texts that consist of a fill character only (a pad that looks for the text inside the padded result finds it at 0)
+    hs += [[['rainbow', '--']], [['rainbow', '  ']], [['rainbow', '00']], [['rainbow', '**']], [['rainbow', ':']]]
     hs.append([['plain', 'abcd'], ['apply', R['R'], 0, 2, True], ['apply', R['W'], 0, 3, True], ['apply', R['U'], 0, 2, True]])
     hs.append([['plain', 'abcd'], ['apply', R['R'], 0, 4, True], ['apply', R['B'], 1, 4, True], ['apply', R['R'], 2, 3, True]])
     return [(h, build(h)) for h in hs]
